@@ -57,6 +57,13 @@ def gen_merge_pair(rng):
                 la = lookalike(rng.choice(cands))
                 if la:
                     c2[role].append(la)
+    if mode != "clash" and rng.random() < 0.12:
+        # very different scales across the two viewpoints: a small coefficient (7.6e-6) that still matters at the edge of the
+        # box in one, a large one (1024) in the other, over a shared input that nothing else constrains
+        for c in (c1, c2):
+            c["i"] = list(c["i"]) + ["p"]
+        c1["g"].append(({c1["o"][0]: F(1), "p": F(rng.choice([1, -1]), 2 ** 17)}, F(rng.randint(0, 3))))
+        c2["g"].append(({c2["o"][-1]: F(1), "p": F(rng.choice([1024, -1024, 2048]))}, F(rng.randint(0, 3))))
     return mode, c1, c2
 
 
